@@ -10,7 +10,7 @@ import warnings
 from . import core
 from .core import CLOCK, from_loc, inst_of, tz_of
 from .impl_thr import CALLS, _CountHandler, err_kind, py_tags, py_timing
-from .vloop import VirtualLoop
+from .vloop import LoopSpin, VirtualLoop
 
 
 class AioRunner:
@@ -29,6 +29,9 @@ class AioRunner:
         self.logger.propagate = False
         self.logger.setLevel(logging.DEBUG)
         self.dflt = scn.get("dflt") or {"acts": [], "raises": False}
+        self.arg_failures = []
+        self.cells = []
+        self.del_events = []   # (instant, acting job, deleted job) for deletions done by coroutines
 
     # -------------------------------------------------------------- coroutines
     def make_coro(self, cell):
@@ -43,6 +46,8 @@ class AioRunner:
             due = inst_of(job.datetime)
             runner.events.append((CLOCK.instant, key, "S", due))
             runner.trace.append(("S", key))
+            if "want" in cell and (tuple(args), dict(kwargs)) != cell["want"]:
+                runner.arg_failures.append((key, repr((args, kwargs))[:160]))
             try:
                 for a in script.get("acts", []):
                     if a[0] == "sl":
@@ -51,6 +56,7 @@ class AioRunner:
                         try:
                             runner.sched.delete_job(runner.created[a[1]])
                             runner.trace.append(("D", a[1]))
+                            runner.del_events.append((CLOCK.instant, key, a[1]))
                         except Exception as e:  # noqa: BLE001
                             runner.cop_errors.append(err_kind(e))
                     elif a[0] == "at":
@@ -59,6 +65,7 @@ class AioRunner:
                         after = set(runner.key_of[id(j)] for j in runner.sched.jobs)
                         for kk in sorted(before - after):
                             runner.trace.append(("D", kk))
+                            runner.del_events.append((CLOCK.instant, key, kk))
                     elif a[0] == "as":
                         runner.do_sched(a[1], [runner.dflt])
             except asyncio.CancelledError:
@@ -80,8 +87,22 @@ class AioRunner:
         cb = self.make_coro(cell)
         kw = {}
         tags = py_tags(o.get("tags"), o.get("tagkind"))
+        cell["orig_tags"] = tags
         if tags is not None:
             kw["tags"] = tags
+        if "argshape" in o or "kwshape" in o:
+            # C19: the coroutine must receive exactly these, whatever the caller does to the containers later
+            payload = o.get("payload", 0)
+            args = {"none": None, "empty": (), "one": (payload,), "many": (payload, "x", 3.5, None, b"b"),
+                    "nested": (payload, [1, [2, 3]], {"k": (4, 5)})}[o.get("argshape", "one")]
+            kwargs = {"none": None, "empty": {}, "one": {"p": payload},
+                      "many": {"p": payload, "a": 1, "b": "two", "c": None, "d": (1, 2), "e": 2.5}}[o.get("kwshape", "one")]
+            cell["want"] = (() if args is None else tuple(args), {} if kwargs is None else dict(kwargs))
+            cell["orig_kwargs"] = kwargs
+            if args is not None:
+                kw["args"] = args
+            if kwargs is not None:
+                kw["kwargs"] = kwargs
         if call != "once":
             if o.get("start") is not None:
                 kw["start"] = from_loc(*o["start"])
@@ -100,6 +121,7 @@ class AioRunner:
         cell["job"], cell["key"] = job, key
         self.created.append(job)
         self.key_of[id(job)] = key
+        self.cells.append(cell)
         return key
 
     def snapshot(self):
@@ -126,7 +148,7 @@ class AioRunner:
 
         self.sched = saio.Scheduler(tzinfo=tz_of(self.scn.get("tz")), logger=self.logger)
         self.cop_errors = []
-        obs_list = []
+        obs_list = self.obs_list = []
         for o in self.scn["ops"]:
             k = o["op"]
             obs = {"res": None}
@@ -171,23 +193,53 @@ class AioRunner:
                     obs["res"] = ("s", sorted(self.key_of[id(j)] for j in r))
                 elif k == "jobs":
                     obs["res"] = ("s", sorted(self.key_of[id(j)] for j in self.sched.jobs))
+                elif k == "mutate":
+                    cell = self.cells[o["key"]] if o["key"] < len(self.cells) else None
+                    if cell is not None:
+                        what = o.get("what", "all")
+                        if what in ("kwargs", "all") and isinstance(cell.get("orig_kwargs"), dict):
+                            d = cell["orig_kwargs"]
+                            d["injected"] = 1
+                            d.pop("p", None)
+                            d["a"] = "overwritten"
+                        if what in ("tags", "all") and isinstance(cell.get("orig_tags"), set):
+                            cell["orig_tags"].clear()
+                            cell["orig_tags"].add("t9")
+                        if what in ("returned_tags", "all"):
+                            t = cell["job"].tags
+                            if o.get("how") == "swap" and t:
+                                t.discard(sorted(t)[0])
+                                t.add("t8")
+                            else:
+                                t.clear()
+                                t.add("t8")
+                    obs["res"] = ("u",)
                 else:
                     raise ValueError(k)
             except Exception as e:  # noqa: BLE001
                 obs["res"] = ("e", err_kind(e))
                 obs["exc"] = repr(e)[:200]
             # let every task that is ready at this instant run until it waits for a later instant
+            self.cur_obs = obs
             await asyncio.sleep(0)
             for _ in range(200000):
                 if not loop._ready:
                     break
                 await asyncio.sleep(0)
+            else:
+                raise LoopSpin("tasks stay ready at one instant")
             obs["events"] = list(self.events)
             obs["jobs"] = self.snapshot()
             obs["logs"] = sum(1 for r in self.handler.records if r.levelno >= logging.ERROR)
             obs["now"] = CLOCK.instant
             obs["task_errors"] = self.task_errors()
             obs["trace"] = list(self.trace)
+            obs["arg_failures"] = list(self.arg_failures)
+            # a coroutine deleted ANOTHER job at the very instant that job's coroutine started: which of the
+            # two ready tasks runs first is the event loop's choice, not the scheduler's - not comparable
+            starts = {(t, kk) for (t, kk, kind, _d) in self.events if kind == "S"}
+            obs["ambiguous"] = any((t, tgt) in starts and actor != tgt for (t, actor, tgt) in self.del_events)
+            self.del_events = []
             obs_list.append(obs)
         # wind down: cancel what is left
         try:
@@ -209,9 +261,25 @@ class AioRunner:
 
         loop.set_task_factory(factory)
         loop.set_exception_handler(lambda lp, ctx: self.handler_calls.append(str(ctx.get("message"))))
+        self.cur_obs = None
         try:
             asyncio.set_event_loop(loop)
-            obs = loop.run_until_complete(self.drive(loop))
+            try:
+                obs = loop.run_until_complete(self.drive(loop))
+            except LoopSpin as e:
+                # the implementation never lets the loop get idle (a job runs again and again at one
+                # instant): report what was observed so far plus a marker observation
+                obs = list(getattr(self, "obs_list", []))
+                last = {"res": ("e", "LoopSpin"), "exc": str(e), "events": list(self.events[:400]), "jobs": {},
+                        "logs": 0, "now": CLOCK.instant, "task_errors": [], "trace": list(self.trace[:400]),
+                        "arg_failures": [], "spin": True}
+                try:
+                    last["jobs"] = self.snapshot()
+                except Exception:  # noqa: BLE001
+                    pass
+                obs.append(last)
+                for t in self.tasks:
+                    t.cancel()
         finally:
             asyncio.set_event_loop(None)
             loop.close()
@@ -291,7 +359,13 @@ def run_scenario(scn):
     dacts = dflt.get("acts", [])
     lines = [f"A {core.s_opt_int(scn.get('tz'))} {scn['clock0']} " + " ".join([str(len(dacts))] + [s_act(a) for a in dacts] + ["1" if dflt.get("raises") else "0"])]
     impl = ["A ok"]
+    for n, ob in enumerate(obs):
+        if ob.get("ambiguous"):
+            obs = obs[:n]       # keep the unambiguous prefix only
+            break
     for o, ob in zip(scn["ops"], obs):
+        if o["op"] == "mutate":
+            continue            # caller-side mutation: not an operation of the model (value semantics)
         lines.append(s_aop(o, dflt))
         impl.append(render(ob))
     for ob in obs:
